@@ -68,6 +68,17 @@ where
 
         let from = stored_len * Self::SIZE_OF_T + HEADER_OFFSET;
 
+        if unlikely(expanded) {
+            // After rolling back a truncation the missing elements live in `updated`
+            // (or are deleted). Extend the region to the logical stored length first,
+            // so that the append and the overlay writes below are all in bounds.
+            let missing = (stored_len - real_stored_len) * Self::SIZE_OF_T;
+            self.region().write_at(
+                &vec![0u8; missing],
+                real_stored_len * Self::SIZE_OF_T + HEADER_OFFSET,
+            )?;
+        }
+
         if has_new_data {
             // Take the pushed buffer to free its heap allocation after writing.
             let taken = mem::take(self.base.mut_pushed());
